@@ -226,4 +226,99 @@ theorem encoded_pointer_total (m : Mode) (e : Endian) (enc : Nat) (p : PeParams)
     (hs : SizeOk m p.asz) : (parseEncodedPointer m e enc p r).Normal :=
   pep_normal m e enc p r hs
 
+/-- **Iteration always ends.** `section.entries(bases)` over any bytes yields finitely many items
+(at most `length/4`: each consumed at least 4 bytes) and then `Ok(None)` or one error — it never
+panics and never loops, including the `.debug_frame` zero-length skipping. (`SizeOk`: the
+caller's address size is 1..8 or overflow checks are off; sizes read from version-4 CIEs are
+always 1, 2, 4 or 8.) -/
+theorem entries_total (c : Cfg) (bases : Bases) (sec : Bytes) (hs : SizeOk c.m c.asz) :
+    (entriesOf c bases sec).2.Normal :=
+  entries_normal c bases hs _ _ (by simp)
+
+/-- each yielded item consumed at least the 4 bytes of its length field -/
+theorem entries_progress (c : Cfg) (bases : Bases) (hs : SizeOk c.m c.asz) (r : Rd) (en : Entry) (r' : Rd)
+    (h : next c bases (r.bs.length + 1) r = .ok (some en, r')) : r'.bs.length + 4 ≤ r.bs.length :=
+  (next_normal c bases hs (r.bs.length + 1) r (by omega)).2 en r' h
+
+/-- fully parsing any FDE the iterator yields (CIE lookup at the designated offset, addresses,
+augmentation data) returns an FDE or an error -/
+theorem fde_parse_total (c : Cfg) (bases : Bases) (sec : Bytes) (p : PartialFde)
+    (hs : SizeOk c.m c.asz) : (parseRest c bases sec p).Normal :=
+  parseRest_normal c bases sec p hs
+
+/-- `fde_for_address` (linear) returns an FDE or an error for every section and address -/
+theorem linear_lookup_total (c : Cfg) (bases : Bases) (sec : Bytes) (a : Nat) (hs : SizeOk c.m c.asz) :
+    (fdeForAddress c bases sec a).Normal :=
+  fdeForAddress_normal c bases sec a hs
+
+/-- `EhFrameHdr::parse` returns a header or an error on any bytes -/
+theorem hdr_parse_total (m : Mode) (e : Endian) (bases : Bases) (asz : Nat) (sec : Bytes)
+    (hs : SizeOk m asz) : (parseHdr m e bases asz sec).Normal :=
+  parseHdr_normal m e bases asz sec hs
+
+/-- `EhHdrTable::fde_for_address` returns an FDE or an error for every header, section, address -/
+theorem hdr_fde_for_address_total (c : Cfg) (bases : Bases) (h : Hdr) (frame : Bytes) (a : Nat)
+    (hs : SizeOk c.m c.asz) (hh : SizeOk c.m h.asz) (hc : h.fdeCount < 2 ^ 64) :
+    (hdrFdeForAddress c bases h frame a).Normal :=
+  hdrFdeForAddress_normal c bases h frame a hs hh hc
+
+/-! ## the recorded finding C05-1, pinned -/
+
+/-- witness CIE/FDE: 8-byte addresses, FDE `[0xffff_ffff_ffff_fff0, 2^64)` -/
+def topCie : Cie :=
+  { offset := 0, length := 12, format := .dwarf32, version := 1, aug := none, asz := 8,
+    caf := 1, daf := -8, rar := 16, instr := ⟨16, []⟩ }
+def topFde : Fde :=
+  { offset := 16, length := 20, format := .dwarf32, cie := topCie,
+    initial := 0xffff_ffff_ffff_fff0, range := 0x10, lsda := none, instr := ⟨40, []⟩ }
+
+/-- **Counter-example to the unrestricted lookup clause (known finding C05-1).** An FDE whose range
+ends exactly at the top of its address space is excluded by `NoWrap` in `linear_lookup_first`
+for a reason: `contains` (and with it all three lookup paths) answers *false* for an address the
+FDE covers, because `end_address()` wraps to 0. -/
+theorem top_of_address_space_not_covered :
+    covers topFde.initial topFde.range 0xffff_ffff_ffff_fff8 ∧
+    topFde.contains .debug 0xffff_ffff_ffff_fff8 = .ok false ∧
+    topFde.contains .release 0xffff_ffff_ffff_fff8 = .ok false ∧ ¬ NoWrap topFde := by
+  refine ⟨by decide +kernel, by decide +kernel, by decide +kernel, ?_⟩
+  unfold NoWrap; decide +kernel
+
+/-! ## non-vacuity: the hypotheses above are met by concrete non-trivial inputs -/
+
+/-- a small `.eh_frame_hdr`: version 1, `eh_frame_ptr` udata4, count udata4 = 3, table udata4 -/
+def exHdr : Bytes := [1, 0x03, 0x03, 0x03, 0x00, 0x10, 0, 0, 3, 0, 0, 0,
+  0x10, 0, 0, 0, 0x20, 0x10, 0, 0,
+  0x20, 0, 0, 0, 0x40, 0x10, 0, 0,
+  0x30, 0, 0, 0, 0x60, 0x10, 0, 0]
+
+example : ∃ h, parseHdr .debug .little {} 8 exHdr = .ok h ∧ h.fdeCount = 3 ∧
+    tableEntrySize h.tableEnc = some 4 ∧ h.fdeCount * (4 * 2) ≤ h.table.bs.length ∧
+    rowKey .debug .little h.tableEnc (h.params {}) h.table.off h.table.bs 4 0 = .ok (.direct 0x10) ∧
+    rowKey .debug .little h.tableEnc (h.params {}) h.table.off h.table.bs 4 1 = .ok (.direct 0x20) ∧
+    rowKey .debug .little h.tableEnc (h.params {}) h.table.off h.table.bs 4 2 = .ok (.direct 0x30) ∧
+    lookup .debug .little h {} 0x2f = .ok (.direct 0x1040) ∧
+    lookup .debug .little h {} 0x30 = .ok (.direct 0x1060) ∧
+    lookup .debug .little h {} 0x05 = .ok (.direct 0x1020) := by
+  refine ⟨_, rfl, ?_⟩
+  decide +kernel
+
+/-- a one-CIE one-FDE `.debug_frame` (4-byte addresses): iteration, full FDE parse and lookup -/
+def exSec : Bytes := [12, 0, 0, 0, 0xff, 0xff, 0xff, 0xff, 1, 0, 1, 0x7c, 16, 0, 0, 0,
+  12, 0, 0, 0, 0, 0, 0, 0, 0x00, 0x10, 0, 0, 0x20, 0, 0, 0]
+def exCfg : Cfg := { eh := false, e := .little, asz := 4, m := .debug }
+
+example : (entriesOf exCfg {} exSec).2 = .ok () ∧ (entriesOf exCfg {} exSec).1.length = 2 ∧
+    (parseAll exCfg {} exSec (entriesOf exCfg {} exSec).1).map
+      (fun fs => fs.map (fun f => (f.initial, f.range, f.cie.offset, f.cie.daf, f.cie.asz))) =
+        .ok [(0x1000, 0x20, 0, -4, 4)] ∧
+    (fdeForAddress exCfg {} exSec 0x101f).map (·.offset) = .ok 16 ∧
+    (fdeForAddress exCfg {} exSec 0x1020).map (·.offset) = .err .rNoUnwindInfoForAddress := by
+  decide +kernel
+
+example : isValidEncoding 0x9b = true ∧ neededBase 0x9b ⟨{ sect := some 0x4000 }, none, 8⟩ 0x10 = some 0x4010 ∧
+    encodeOperand .little 0x9b 8 (sext 4 0xffff_fff0) = some [0xf0, 0xff, 0xff, 0xff] ∧
+    parseEncodedPointer .debug .little 0x9b ⟨{ sect := some 0x4000 }, none, 8⟩ ⟨0x10, [0xf0, 0xff, 0xff, 0xff, 7]⟩ =
+      .ok (.indirect 0x4000, ⟨0x14, [7]⟩) := by
+  decide +kernel
+
 end Gimli.Props.C05
